@@ -1,2 +1,48 @@
-(* placeholder, replaced below *)
-From Cog Require Import Model.IR.
+(* C02: the declarations of Model/GoDecl.v against what go/parser finds in the generated types_gen.go
+   (drivers/go/godecls), evaluated by checks/c02_decls.py.  Definitions only. *)
+From Coq Require Import List String ZArith Bool Ascii.
+From Cog Require Export Model.IR Model.Names Model.Json Model.GoSemBase Model.GoDecl.
+Import ListNotations.
+Local Open Scope list_scope.
+Local Open Scope string_scope.
+
+Definition struct_field_strings (name : string) (t : gotype) : list string :=
+  match t with
+  | GTStruct fs _ => map (fun nf => "field:" ++ name ++ "." ++ fst nf) fs
+  | _ => []
+  end.
+
+Definition decl_strings (ds : list godecl) : list string :=
+  flat_map (fun d => match d with
+                     | DType n t => ("type:" ++ n) :: struct_field_strings n t
+                     | DConst n _ => ["const:" ++ n]
+                     | DFunc n => ["func:" ++ n]
+                     | DMethod r m => ["method:" ++ r ++ "." ++ m]
+                     | DBroken x => ["broken:" ++ x]
+                     end) ds.
+
+Definition subset (a b : list string) : bool := forallb (fun x => str_in x b) a.
+Definition same_set (a b : list string) : bool := (subset a b && subset b a)%bool.
+
+(* one case: context of the Go jenny, the option vector, the package, the declarations found in its types_gen.go *)
+Definition dcase := (schemas * go_flags * string * list string)%type.
+
+Definition dcase_decls (c : dcase) : option (list string) :=
+  let '(ctx, fl, pkg, _) := c in
+  match locate ctx pkg with
+  | Some s => Some (decl_strings (decls_of_schema fl ctx s))
+  | None => None
+  end.
+
+(* the model declares something the file does not, or the other way round *)
+Definition mm_decls (c : dcase) : bool :=
+  let '(_, _, _, observed) := c in
+  match dcase_decls c with
+  | Some model => negb (same_set model observed)
+  | None => true
+  end.
+
+(* the model's verdict on the context: decls_wf is false although the package compiled, or true although it did not *)
+Definition model_wf (c : dcase) : bool := let '(ctx, fl, _, _) := c in decls_wf fl ctx.
+Definition model_run_err (c : dcase) : bool :=
+  let '(ctx, fl, _, _) := c in match go_run fl ctx with Ok _ => false | _ => true end.
